@@ -8,7 +8,7 @@ from .c04 import judge, spec_tensor
 
 IMPORTS = ('From OFV Require Import Base.Cplx Base.Lin Base.Mat Sem.PauliSem Sem.FermiSem Sem.BoseSem Model.SymbolicOp Model.QubitOp Model.LadderOp '
            'Model.LinearOp Check.Sectors Check.MatrixOf Check.BoseMatrix.\n')
-NEEDS = ['Check/MatrixOf', 'Check/BoseMatrix', 'Thm/C06/LinearOpSound']
+NEEDS = ['Check/MatrixOf', 'Check/BoseMatrix', 'Thm/C06/LinearOpSound', 'Thm/C06/LinearOpFull']
 LEVEL = 'translation_validation'
 EPS2 = cQ(Fraction(1, 10 ** 18)); EPS = cQ(Fraction(1, 10 ** 9))
 def cvec(v): return '(' + clist([cC(complex(x)) for x in v]) + ' : vec)'
